@@ -6,8 +6,8 @@ COMP = Component(
     tiers={
         'quick': dict(design_cfg='SensorsMC_small.cfg', sim_num=2400, sim_depth=60, seeds_per_behaviour=1,
                       rnd_num=2000, rnd_len=25, design_timeout=900),
-        'thorough': dict(design_cfg='SensorsMC_thorough.cfg', sim_num=32000, sim_depth=90, seeds_per_behaviour=1,
-                         rnd_num=40000, rnd_len=50, design_timeout=3000),
+        'thorough': dict(design_cfg='SensorsMC_thorough.cfg', sim_num=10000, sim_depth=90, seeds_per_behaviour=1,
+                         rnd_num=10000, rnd_len=50, design_timeout=3000),
     },
     rule='design: TLC exhaustive over SensorsMC within the cfg bounds (intervals, capacities, sensing intervals, changes of the '
          'probed object, callbacks and the monitoring system added before and between runs); code: every TLC -simulate behaviour and '
